@@ -87,6 +87,19 @@ TMerge == IsEvent("Merge") /\ LET e == Log[l]  a == obj[e.dst]  b == obj[e.src] 
             /\ Chk("merge-unchanged-if-empty", b.total = 0 => ~Comp(e))
             /\ Scalars(e, obj'[e.dst]) /\ UNCHANGED <<blob, cst, stat>>
 
+TSelfMerge == IsEvent("SelfMerge") /\ LET e == Log[l]  a == obj[e.id] IN
+            /\ (a.total > 0 => CompChk(a, Items(a) \o Items(a), NC(e)))
+            /\ MergeSelf(e.id, IF a.total > 0 THEN NC(e) ELSE <<>>)
+            /\ Scalars(e, obj'[e.id]) /\ UNCHANGED <<blob, cst, stat>>
+\* the same queries on copies of one sketch, a different query going first on each copy: the answers must not depend on the order
+\* (qs[c], rs[c]: quantiles at ps / ranks at xs from copy c); and quantile(0) = min, quantile(1) = max whichever ran first
+TOrderProbe == IsEvent("OrderProbe") /\ LET e == Log[l]  o == obj[e.id] IN
+            /\ Chk("query-finite", e.nnan = 0)
+            /\ Chk("query-order-independent", /\ \A c \in 2..Len(e.qs) : e.qs[c] = e.qs[1]
+                                               /\ \A d \in 2..Len(e.rs) : e.rs[d] = e.rs[1])
+            /\ Chk("quantile-ends", QuantEnds(o, e.ps, e.qs[1], cst.zero, cst.one))
+            /\ Chk("quantile-range", QuantRange(o, e.qs[1]))
+            /\ UNCHANGED <<obj, blob, cst, stat>>
 TRankGrid == IsEvent("RankGrid") /\ LET e == Log[l] IN
             /\ SideEffect(e.id, e)
             /\ LET o == obj'[e.id] IN
@@ -236,6 +249,6 @@ TWDeser == IsEvent("WDeser") /\ LET e == Log[l]  b == blob[e.blob] IN
 TInit == obj = <<>> /\ l = 1 /\ blob = <<>> /\ cst = [zero |-> 0, one |-> 0] /\ stat = [sum |-> 0, probes |-> 0, trials |-> 0, wide |-> <<>>]
 TNext == TBegin \/ TNew \/ TUpdate \/ TUpdateNaN \/ TUpdateInf \/ TCompress \/ TMerge \/ TRankGrid \/ TQuantGrid \/ TCdf
          \/ TEmptyQuery \/ TBadQuery \/ TObs \/ TCopy \/ TSer \/ TDeser \/ TTwin \/ TRefImage \/ TTrial \/ TVerdict
-         \/ TWNew \/ TWStep \/ TWCopy \/ TWSer \/ TWDeser
+         \/ TWNew \/ TWStep \/ TWCopy \/ TWSer \/ TWDeser \/ TSelfMerge \/ TOrderProbe
 TSpec == TInit /\ [][TNext]_tvars
 ====
